@@ -7,17 +7,21 @@
 // Line format (header "@ C15 mix", every op line is stateless; bytes travel as hex, "-" = empty):
 //
 //	pu <s> <base> <bits>            ParseUint            -> s=<v>,<cls> b=<v>,<cls> mod=<bool>
-//	he <s>                          HexEncode            -> s=<out> b=<out> ts=<out> mod=<bool>
-//	hd <s>                          HexDecode            -> s=<out>,<errtext|ok> b=… ts=… mod=<bool>
+//	he <s>                          HexEncode            -> s=<out> b=<out> ts=<out> tss=<out> mod=<bool>
+//	hd <s>                          HexDecode            -> s=<out>,<errtext|ok> b=… ts=… tss=… mod=<bool>
 //	hdip <s>                        HexDecodeInPlace     -> n=<n> err=<errtext|ok> buf=<buffer after>
 //	l2ip <x> / ip2l <s> / iprt <x>  LongToIPv4 / IPv4ToLong / round trip
-//	dg <algo> <in> <stdlib digest>  hashz digest helpers -> s= b= ts= st=<stream|none> mod=
-//	hm <algo> <key> <data> <mac>    hashz.Hmac           -> ss= sb= bs= bb= ts= mod=
-//	b64e <enc> <in> <stdlib out>    Base64Encode         -> s= b= ts= mod=
-//	b64d <enc> <in> <out> <err>     Base64Decode         -> s=<out>,<err> b= ts= mod=
+//	dg <algo> <in> <stdlib digest>  hashz digest helpers -> s= b= ts= tss= st= st1= stw=<stream|none> mod=
+//	hm <algo> <key> <data> <mac>    hashz.Hmac           -> ss= sb= bs= bb= ts= tss= mod=
+//	b64e <enc> <in> <stdlib out>    Base64Encode         -> s= b= ts= tss= mod=
+//	b64d <enc> <in> <out> <err>     Base64Decode         -> s=<out>,<err> b= ts= tss= mod=
 //
-// s= / b= are the string and the []byte instantiation of the type parameter, ts= the
-// …ToString variant, mod= whether the input buffer was modified by the call.
+// s= / b= are the string and the []byte instantiation of the type parameter, ts= / tss= the
+// …ToString variant on []byte / string, st= / st1= / stw= the …Stream form fed by a reader that
+// returns a third of the input per Read / one byte per Read / implements io.WriterTo,
+// mod= whether the input buffer was modified by the call.  The ParseUint error class is
+// compared with the class of strconv's error (ErrSyntax, ErrRange, invalid base, invalid bit
+// size), not only "error or not".
 package c15
 
 import (
@@ -54,7 +58,7 @@ func init() {
 		Impl:       impl,
 		Check:      check,
 		NonTrivial: nonTrivial,
-		Rule: "cases of 1..8 stateless calls (ParseUint on grammar-generated numerals × base -1..37 × bit size -1..65, HexEncode/HexDecode/HexDecodeInPlace on valid/odd/invalid-at-position strings, IPv4 print/parse, digest/HMAC/Base64 helpers), each run as string and as []byte; " +
+		Rule: "cases of 1..8 stateless calls (ParseUint on grammar-generated numerals × base -1..37 × bit size -1..65, HexEncode/HexDecode/HexDecodeInPlace on valid/odd/invalid-at-position strings, IPv4 print/parse, digest/HMAC/Base64 helpers), each run as string and as []byte (and the …ToString variants on both; the …Stream helpers with three readers); " +
 			"non-trivial = at least one ParseUint call that reaches the digit loop with ≥ 2 characters, or a hex decode call of length ≥ 2, or a digest/HMAC/Base64 call; distinct by hash of the op list",
 		Classify: classify,
 		Facts:    facts,
@@ -121,24 +125,48 @@ func puClass(err error, base, bits int) string {
 	return "other"
 }
 
+// stdClass maps the error of strconv.ParseUint to the same classes (by the wrapped error
+// value, not by message).
+func stdClass(err error, base, bits int) string {
+	if err == nil {
+		return "ok"
+	}
+	ne, ok := err.(*strconv.NumError)
+	if !ok {
+		return "other"
+	}
+	switch {
+	case ne.Err == strconv.ErrSyntax:
+		return "syntax"
+	case ne.Err == strconv.ErrRange:
+		return "range"
+	case ne.Err.Error() == "invalid base "+strconv.Itoa(base):
+		return "base"
+	case ne.Err.Error() == "invalid bit size "+strconv.Itoa(bits):
+		return "bitsize"
+	}
+	return "other"
+}
+
 type digestAlgo struct {
 	name   string
 	sum    func([]byte) []byte // stdlib reference
 	s      func(string) []byte // hashz, string instantiation
 	b      func([]byte) []byte // hashz, []byte instantiation
-	ts     func([]byte) string // hashz …ToString
+	ts     func([]byte) string // hashz …ToString, []byte instantiation
+	tss    func(string) string // hashz …ToString, string instantiation
 	stream func(io.Reader) ([]byte, error)
 }
 
 var digestAlgos = []digestAlgo{
-	{"md5", func(b []byte) []byte { h := md5.Sum(b); return h[:] }, hashz.Md5[string], hashz.Md5[[]byte], hashz.Md5ToString[[]byte], hashz.Md5Stream},
-	{"sha1", func(b []byte) []byte { h := sha1.Sum(b); return h[:] }, hashz.Sha1[string], hashz.Sha1[[]byte], hashz.Sha1ToString[[]byte], hashz.Sha1Stream},
-	{"sha224", func(b []byte) []byte { h := sha256.Sum224(b); return h[:] }, hashz.Sha224[string], hashz.Sha224[[]byte], hashz.Sha224ToString[[]byte], hashz.Sha224Stream},
-	{"sha256", func(b []byte) []byte { h := sha256.Sum256(b); return h[:] }, hashz.Sha256[string], hashz.Sha256[[]byte], hashz.Sha256ToString[[]byte], hashz.Sha256Stream},
-	{"sha384", func(b []byte) []byte { h := sha512.Sum384(b); return h[:] }, hashz.Sha384[string], hashz.Sha384[[]byte], hashz.Sha384ToString[[]byte], hashz.Sha384Stream},
-	{"sha512", func(b []byte) []byte { h := sha512.Sum512(b); return h[:] }, hashz.Sha512[string], hashz.Sha512[[]byte], hashz.Sha512ToString[[]byte], hashz.Sha512Stream},
-	{"sha512_224", func(b []byte) []byte { h := sha512.Sum512_224(b); return h[:] }, hashz.Sha512_224[string], hashz.Sha512_224[[]byte], hashz.Sha512_224ToString[[]byte], nil},
-	{"sha512_256", func(b []byte) []byte { h := sha512.Sum512_256(b); return h[:] }, hashz.Sha512_256[string], hashz.Sha512_256[[]byte], hashz.Sha512_256ToString[[]byte], nil},
+	{"md5", func(b []byte) []byte { h := md5.Sum(b); return h[:] }, hashz.Md5[string], hashz.Md5[[]byte], hashz.Md5ToString[[]byte], hashz.Md5ToString[string], hashz.Md5Stream},
+	{"sha1", func(b []byte) []byte { h := sha1.Sum(b); return h[:] }, hashz.Sha1[string], hashz.Sha1[[]byte], hashz.Sha1ToString[[]byte], hashz.Sha1ToString[string], hashz.Sha1Stream},
+	{"sha224", func(b []byte) []byte { h := sha256.Sum224(b); return h[:] }, hashz.Sha224[string], hashz.Sha224[[]byte], hashz.Sha224ToString[[]byte], hashz.Sha224ToString[string], hashz.Sha224Stream},
+	{"sha256", func(b []byte) []byte { h := sha256.Sum256(b); return h[:] }, hashz.Sha256[string], hashz.Sha256[[]byte], hashz.Sha256ToString[[]byte], hashz.Sha256ToString[string], hashz.Sha256Stream},
+	{"sha384", func(b []byte) []byte { h := sha512.Sum384(b); return h[:] }, hashz.Sha384[string], hashz.Sha384[[]byte], hashz.Sha384ToString[[]byte], hashz.Sha384ToString[string], hashz.Sha384Stream},
+	{"sha512", func(b []byte) []byte { h := sha512.Sum512(b); return h[:] }, hashz.Sha512[string], hashz.Sha512[[]byte], hashz.Sha512ToString[[]byte], hashz.Sha512ToString[string], hashz.Sha512Stream},
+	{"sha512_224", func(b []byte) []byte { h := sha512.Sum512_224(b); return h[:] }, hashz.Sha512_224[string], hashz.Sha512_224[[]byte], hashz.Sha512_224ToString[[]byte], hashz.Sha512_224ToString[string], nil},
+	{"sha512_256", func(b []byte) []byte { h := sha512.Sum512_256(b); return h[:] }, hashz.Sha512_256[string], hashz.Sha512_256[[]byte], hashz.Sha512_256ToString[[]byte], hashz.Sha512_256ToString[string], nil},
 }
 
 func digestByName(n string) *digestAlgo {
@@ -153,8 +181,9 @@ func digestByName(n string) *digestAlgo {
 var hmacAlgos = map[string]func() hash.Hash{
 	"md5": md5.New, "sha1": sha1.New, "sha224": sha256.New224, "sha256": sha256.New,
 	"sha384": sha512.New384, "sha512": sha512.New,
+	"sha512_224": sha512.New512_224, "sha512_256": sha512.New512_256,
 }
-var hmacNames = []string{"md5", "sha1", "sha224", "sha256", "sha384", "sha512"}
+var hmacNames = []string{"md5", "sha1", "sha224", "sha256", "sha384", "sha512", "sha512_224", "sha512_256"}
 
 var b64Encs = map[string]*base64.Encoding{
 	"std": base64.StdEncoding, "url": base64.URLEncoding,
@@ -236,16 +265,18 @@ func implOp(t []string) string {
 		o1 := strz.HexEncode(str)
 		o2 := strz.HexEncode(bs)
 		o3 := strz.HexEncodeToString(bs)
+		o4 := strz.HexEncodeToString(str)
 		mod := !bytes.Equal(bs, s) || str != string(s)
-		return fmt.Sprintf("s=%s b=%s ts=%s mod=%v", hx(o1), hx(o2), hx([]byte(o3)), mod)
+		return fmt.Sprintf("s=%s b=%s ts=%s tss=%s mod=%v", hx(o1), hx(o2), hx([]byte(o3)), hx([]byte(o4)), mod)
 	case t[0] == "hd" && len(t) == 2:
 		s := arg(1)
 		str, bs := string(s), clone(s)
 		o1, e1 := strz.HexDecode(str)
 		o2, e2 := strz.HexDecode(bs)
 		o3, e3 := strz.HexDecodeToString(bs)
+		o4, e4 := strz.HexDecodeToString(str)
 		mod := !bytes.Equal(bs, s) || str != string(s)
-		return fmt.Sprintf("s=%s,%s b=%s,%s ts=%s,%s mod=%v", hx(o1), errText(e1), hx(o2), errText(e2), hx([]byte(o3)), errText(e3), mod)
+		return fmt.Sprintf("s=%s,%s b=%s,%s ts=%s,%s tss=%s,%s mod=%v", hx(o1), errText(e1), hx(o2), errText(e2), hx([]byte(o3)), errText(e3), hx([]byte(o4)), errText(e4), mod)
 	case t[0] == "hdip" && len(t) == 2:
 		buf := clone(arg(1))
 		n, err := strz.HexDecodeInPlace(buf)
@@ -275,17 +306,22 @@ func implOp(t []string) string {
 		o1 := a.s(str)
 		o2 := a.b(bs)
 		o3 := a.ts(bs)
-		st := "none"
+		o3s := a.tss(str)
+		st, st1, stw := "none", "none", "none"
 		if a.stream != nil {
-			o4, err := a.stream(&chunkReader{b: clone(s), n: 1 + len(s)/3})
-			if err != nil {
-				st = "err"
-			} else {
-				st = hx(o4)
+			run := func(r io.Reader) string {
+				o, err := a.stream(r)
+				if err != nil {
+					return "err"
+				}
+				return hx(o)
 			}
+			st = run(&chunkReader{b: clone(s), n: 1 + len(s)/3}) // three or four reads
+			st1 = run(&chunkReader{b: clone(s), n: 1})           // one byte per read
+			stw = run(bytes.NewReader(bs))                       // io.WriterTo path of io.Copy: one Write
 		}
 		mod := !bytes.Equal(bs, s) || str != string(s)
-		return fmt.Sprintf("s=%s b=%s ts=%s st=%s mod=%v", hx(o1), hx(o2), hx([]byte(o3)), st, mod)
+		return fmt.Sprintf("s=%s b=%s ts=%s tss=%s st=%s st1=%s stw=%s mod=%v", hx(o1), hx(o2), hx([]byte(o3)), hx([]byte(o3s)), st, st1, stw, mod)
 	case t[0] == "hm" && len(t) == 5:
 		h := hmacAlgos[t[1]]
 		if h == nil {
@@ -299,8 +335,9 @@ func implOp(t []string) string {
 		o3 := hashz.Hmac(kb, ds, h)
 		o4 := hashz.Hmac(kb, db, h)
 		o5 := hashz.HmacToString(kb, ds, h)
+		o6 := hashz.HmacToString(ks, db, h)
 		mod := !bytes.Equal(kb, k) || !bytes.Equal(db, d) || ks != string(k) || ds != string(d)
-		return fmt.Sprintf("ss=%s sb=%s bs=%s bb=%s ts=%s mod=%v", hx(o1), hx(o2), hx(o3), hx(o4), hx([]byte(o5)), mod)
+		return fmt.Sprintf("ss=%s sb=%s bs=%s bb=%s ts=%s tss=%s mod=%v", hx(o1), hx(o2), hx(o3), hx(o4), hx([]byte(o5)), hx([]byte(o6)), mod)
 	case t[0] == "b64e" && len(t) == 4:
 		enc := b64Encs[t[1]]
 		if enc == nil {
@@ -312,8 +349,9 @@ func implOp(t []string) string {
 		o1 := strz.Base64Encode(str, enc)
 		o2 := strz.Base64Encode(bs, enc)
 		o3 := strz.Base64EncodeToString(bs, enc)
+		o4 := strz.Base64EncodeToString(str, enc)
 		mod := !bytes.Equal(bs, s) || str != string(s)
-		return fmt.Sprintf("s=%s b=%s ts=%s mod=%v", hx(o1), hx(o2), hx([]byte(o3)), mod)
+		return fmt.Sprintf("s=%s b=%s ts=%s tss=%s mod=%v", hx(o1), hx(o2), hx([]byte(o3)), hx([]byte(o4)), mod)
 	case t[0] == "b64d" && len(t) == 5:
 		enc := b64Encs[t[1]]
 		if enc == nil {
@@ -325,8 +363,9 @@ func implOp(t []string) string {
 		o1, e1 := strz.Base64Decode(str, enc)
 		o2, e2 := strz.Base64Decode(bs, enc)
 		o3, e3 := strz.Base64DecodeToString(bs, enc)
+		o4, e4 := strz.Base64DecodeToString(str, enc)
 		mod := !bytes.Equal(bs, s) || str != string(s)
-		return fmt.Sprintf("s=%s,%s b=%s,%s ts=%s,%s mod=%v", hx(o1), errText(e1), hx(o2), errText(e2), hx([]byte(o3)), errText(e3), mod)
+		return fmt.Sprintf("s=%s,%s b=%s,%s ts=%s,%s tss=%s,%s mod=%v", hx(o1), errText(e1), hx(o2), errText(e2), hx([]byte(o3)), errText(e3), hx([]byte(o4)), errText(e4), mod)
 	}
 	return "bad-op"
 }
@@ -403,17 +442,20 @@ func checkOp(t []string, out string) *core.Failure {
 			if (p[1] != "ok") != (werr != nil) {
 				return fail("parseuint-error", "ParseUint(%q, %d, %d) [%s] error class %s, strconv.ParseUint err = %v", s, base, bits, n, p[1], werr)
 			}
+			if wc := stdClass(werr, base, bits); p[1] != wc {
+				return fail("parseuint-error-class", "ParseUint(%q, %d, %d) [%s] error class %s, strconv.ParseUint gives %s (%v)", s, base, bits, n, p[1], wc, werr)
+			}
 		}
 	case "he":
 		s, _ := unhx(t[1])
 		want := hx([]byte(hex.EncodeToString(s)))
-		return allEq("hexencode", want, "s", "b", "ts")
+		return allEq("hexencode", want, "s", "b", "ts", "tss")
 	case "hd":
 		s, _ := unhx(t[1])
 		dst := make([]byte, hex.DecodedLen(len(s)))
 		n, err := hex.Decode(dst, s)
 		want := hx(dst[:n]) + "," + errText(err)
-		return allEq("hexdecode", want, "s", "b", "ts")
+		return allEq("hexdecode", want, "s", "b", "ts", "tss")
 	case "hdip":
 		s, _ := unhx(t[1])
 		dst := make([]byte, hex.DecodedLen(len(s)))
@@ -449,11 +491,11 @@ func checkOp(t []string, out string) *core.Failure {
 			return fail("harness-stale-digest", "the digest carried by the line is not the standard library's")
 		}
 		want := hx([]byte(hex.EncodeToString(sum)))
-		if f := allEq("digest-"+t[1], want, "s", "b", "ts"); f != nil {
+		if f := allEq("digest-"+t[1], want, "s", "b", "ts", "tss"); f != nil {
 			return f
 		}
 		if a.stream != nil {
-			return allEq("digest-stream-"+t[1], want, "st")
+			return allEq("digest-stream-"+t[1], want, "st", "st1", "stw")
 		}
 	case "hm":
 		k, _ := unhx(t[2])
@@ -464,14 +506,14 @@ func checkOp(t []string, out string) *core.Failure {
 		if hx(sum) != t[4] {
 			return fail("harness-stale-digest", "the MAC carried by the line is not the standard library's")
 		}
-		return allEq("hmac-"+t[1], hx([]byte(hex.EncodeToString(sum))), "ss", "sb", "bs", "bb", "ts")
+		return allEq("hmac-"+t[1], hx([]byte(hex.EncodeToString(sum))), "ss", "sb", "bs", "bb", "ts", "tss")
 	case "b64e":
 		s, _ := unhx(t[2])
 		want := hx([]byte(b64Encs[t[1]].EncodeToString(s)))
 		if want != t[3] {
 			return fail("harness-stale-digest", "the base64 text carried by the line is not the standard library's")
 		}
-		return allEq("base64encode", want, "s", "b", "ts")
+		return allEq("base64encode", want, "s", "b", "ts", "tss")
 	case "b64d":
 		s, _ := unhx(t[2])
 		enc := b64Encs[t[1]]
@@ -481,7 +523,7 @@ func checkOp(t []string, out string) *core.Failure {
 		if want != t[3]+","+t[4] {
 			return fail("harness-stale-digest", "the base64 result carried by the line is not the standard library's")
 		}
-		return allEq("base64decode", want, "s", "b", "ts")
+		return allEq("base64decode", want, "s", "b", "ts", "tss")
 	}
 	return nil
 }
